@@ -63,6 +63,11 @@ type Engine struct {
 	// by the router's nfdc goroutine, read by the harness after the barrier signal)
 	execd   []ExecRec
 	barrier chan struct{}
+	// forwarder-side failure deviation: the (failIn+1)-th rib command from now on is rejected once
+	// (-1: not armed); rejected lists what was rejected and may still be retried later
+	failIn   int
+	fails    int
+	rejected []string
 }
 
 // ExecRec is one management command as actually sent to the forwarder.
@@ -123,6 +128,25 @@ func (e *Engine) ExecMgmtCmd(module string, cmd string, args any) error {
 		return errors.New("barrier")
 	}
 	a, _ := args.(*mgmt.ControlArgs)
+	if module == "rib" && e.failIn >= 0 {
+		if e.failIn == 0 {
+			e.failIn = -1
+			e.fails++
+			d := cmd
+			if a != nil && a.Name != nil {
+				d += " " + a.Name.String()
+				if a.FaceId != nil {
+					d += fmt.Sprintf("@f%d", *a.FaceId)
+				}
+				if a.Cost != nil {
+					d += fmt.Sprintf("=%d", *a.Cost)
+				}
+			}
+			e.rejected = append(e.rejected, d)
+			return errors.New("forwarder rejected the command")
+		}
+		e.failIn--
+	}
 	e.execd = append(e.execd, ExecRec{module, cmd, a})
 	return nil
 }
